@@ -400,10 +400,18 @@ def ex_normalize(c):
 
 
 def ex_shiftscale(c):
-    x, y = arr(c["x"], c.get("container", "array")), arr(c["y"], c.get("container", "array"))
+    # optional history of earlier shifts / scales: the Weaver is built on (x0, y0), the `pre` operations are applied, and the
+    # judge gets the exact series after that history as (x, y)
+    x, y = (arr(c["x0"], c.get("container", "array")), arr(c["y0"], c.get("container", "array"))) if "x0" in c else \
+        (arr(c["x"], c.get("container", "array")), arr(c["y"], c.get("container", "array")))
     v = fl(c["v"])
-    woc, w, _ = wrun(x, y, lambda w: getattr(w, c["op"])(v))
-    e = dict(c)
+
+    def go(w):
+        for op in c.get("pre", []):
+            wcall(w, op)
+        return getattr(w, c["op"])(v)
+    woc, w, _ = wrun(x, y, go)
+    e = {k: v2 for k, v2 in c.items() if k not in ("x0", "y0", "pre")}
     e.update(outcome=woc)
     e.update(wfields(w, woc))
     return e
@@ -674,14 +682,21 @@ def match_call(c, x, y):
         kw["fixed_points_in_x"] = [fl(r) + off for r in c["given"]]
     elif c["mode"] == "indices":
         kw["fixed_points_indices_in_x"] = list(c["given"])
-    return match_mod.integral_matching_reference_stretch(x, y, xarr(c["xref"], "array", off), arr(c["yref"]), **kw)
+    L = c["yoff"][0] * 2.0 ** c["yoff"][1] if c.get("yoff") else 0.0      # exact translation of the values, reference included
+    return match_mod.integral_matching_reference_stretch(x, y, xarr(c["xref"], "array", off), arr(c["yref"]) + L, **kw)
 
 
 def ex_match(c):
     x, y = xarr(c["x"], c.get("container", "array"), xoff(c)), arr(c["y"], c.get("ycontainer", c.get("container", "array")))
     y0 = np.array(y, dtype=float, copy=True)
+    L = c["yoff"][0] * 2.0 ** c["yoff"][1] if c.get("yoff") else 0.0
+    if L:
+        y = [v + L for v in y] if isinstance(y, list) else y + (int(L) if y.dtype.kind in "iu" else L)
     oc, o = guarded(lambda: match_call(c, x, y))
     oc2, o2 = guarded(lambda: match_call(c, x, o)) if oc == "ok" else ("skipped", None)
+    if L:
+        o = np.asarray(o, dtype=float) - L if oc == "ok" else o
+        o2 = np.asarray(o2, dtype=float) - L if oc2 == "ok" else o2
     e = {k: v for k, v in c.items() if k not in ("alpha_f", "bounded")}
     small = False
     if oc == "ok":
@@ -754,6 +769,11 @@ def ex_pipeline(c):
     else:
         x, y = arr(c["x"], c.get("container", "array")), arr(c["y"], c.get("container", "array"))
     x0, y0 = np.array(x, dtype=float, copy=True), np.array(y, dtype=float, copy=True)
+    # optional exact translation of the values (a level far above the variation, e.g. byte counters): the pipeline commutes
+    # with y -> y + L (C07), L = sign * 2**power is added to the input and taken off again before recording
+    L = c["yoff"][0] * 2.0 ** c["yoff"][1] if c.get("yoff") else 0.0
+    if L:
+        y = [v + L for v in y] if isinstance(y, list) else y + (int(L) if y.dtype.kind in "iu" else L)
     if c["append"] != "none":       # the documented reference: the original plus the appended sample (computed here, not read back)
         x0 = np.append(x0, 2 * x0[-1] - x0[-2])
         y0 = np.append(y0, y0[0] if c["append"] == "periodic" else y0[-1])
@@ -766,7 +786,7 @@ def ex_pipeline(c):
     gx, gy = w.get()
     kx, ky = kind(gx), kind(gy)
     try:
-        ga = np.asarray(gy, dtype=float)
+        ga = np.asarray(gy, dtype=float) - L
         mx = max(float(np.max(np.abs(y0))), float(np.max(np.abs(ga)))) if ga.ndim == 1 and np.all(np.isfinite(ga)) else 1.0
     except Exception:
         ga, mx = np.array([]), 1.0
@@ -776,7 +796,7 @@ def ex_pipeline(c):
     gxa = np.asarray(gx, dtype=float).ravel()
     e.update(outcome="ok", kind=kx if kx == ky else kx + "/" + ky, yf=fxs(y0 * sc), out=vec(ga * sc) if ga.ndim == 1 else [[5, 0, 0]],
              nthbits=[bits3(v) for v in gxa[::c["n"]]], scale_pow10=p,
-             avgxbits=[bits3(v) for v in av[0]] if aoc == "ok" else [], avgy=fxs(np.asarray(av[1]) * sc) if aoc == "ok" else [])
+             avgxbits=[bits3(v) for v in av[0]] if aoc == "ok" else [], avgy=fxs((np.asarray(av[1]) - L) * sc) if aoc == "ok" else [])
     return e
 
 
